@@ -1,4 +1,5 @@
 import MesaModel.Proofs.Registry
+import MesaModel.Proofs.RegistryFrame
 /-!
 # C02 — the model's agent registry is exact and unique_ids are unique per model
 
@@ -105,6 +106,40 @@ theorem C02_remove_atomic_and_idempotent (ops : List Op) (a : Aid) :
           simp [Reg.deregister, hnot i.model r1 i hr1 hi rfl]
         simp [this, set_getElem?_self hr1]
 
+/-- **Removed stays removed — in every model, at any distance.**  Once `a.remove()` has been called at some point of a
+    history, then at every later moment (whatever else happened in between: churn, activations, reorderings) the agent is
+    in none of the three views of *any* model, and calling `a.remove()` again changes nothing observable. -/
+theorem C02_removed_stays_removed_everywhere (ops : List Op) (a : Aid) (h : a ∈ (run World.empty ops).removedLog) :
+    (∀ (m : Nat) (r : Reg), (run World.empty ops).regs[m]? = some r → a ∉ r.hard ∧ a ∉ r.all ∧ ∀ ts ∈ r.byType, a ∉ ts.2) ∧
+    (let w := run World.empty ops
+     let w2 := removeAgent w a
+     w2.regs = w.regs ∧ w2.info = w.info ∧ w2.held = w.held ∧ w2.sets = w.sets ∧ w2.log = w.log) := by
+  have h0 := winv_run_perm (winv_empty List.Perm) ops
+  generalize run World.empty ops = w at h0 h
+  have hnot : ∀ (m : Nat) (r : Reg), w.regs[m]? = some r → a ∉ r.hard := by
+    intro m r hr hmem
+    rw [(h0.regs m r hr).hard, mem_expectedHard] at hmem
+    exact hmem.2 h
+  refine ⟨fun m r hr => ?_, ?_⟩
+  · have hh := hnot m r hr
+    have hinv := h0.regs m r hr
+    refine ⟨hh, fun ha => hh (hinv.all.mem_iff.mp ha), fun ts hts ha => hh ?_⟩
+    exact (List.mem_filter.mp ((hinv.bt.groups ts hts).mem_iff.mp ha)).1
+  · simp only
+    cases hi : w.info[a]? with
+    | none => rw [removeAgent_none hi]; simp
+    | some i =>
+      cases hr : w.regs[i.model]? with
+      | none => rw [removeAgent_noreg hi hr]; simp
+      | some r =>
+        rw [removeAgent_some hi hr]
+        have : r.deregister a i.ty = r := by simp [Reg.deregister, hnot i.model r hr]
+        simp [this, set_getElem?_self hr]
+
+/-- non-vacuity: agent 0 is removed, then a lot happens, then it is removed again -/
+example : (0 : Aid) ∈ (run World.empty [.newModel ⟨[2, 1]⟩, .create 0 0 true [], .create 0 1 false [], .remove 0, .create 0 0 false [],
+    .shuffle (.all 0), .doSet (fun _ => [.rm 0]) 1 (.all 0)]).removedLog := by decide
+
 /-- **Coexisting models never influence each other.**  Creating agents in model `m`, removing an agent of
     model `m`, removing all agents of `m`, or reordering `m`'s sets in place leaves the registry of every
     other model — members, order, by-type sets, id counter, generator — exactly as it was. -/
@@ -144,6 +179,86 @@ theorem C02_other_models_untouched (ops : List Op) (m m' : Nat) (hne : m' ≠ m)
     unfold shuffleInPlace
     rw [ht, setRng_regs, hraw]
     cases w.regs[m']? <;> simp [hne]
+
+/-- **Coexisting models never influence each other — over whole histories.**  Start from any reachable world and run any
+    history none of whose operations concerns model `m'` (`Op.avoids`: no agent created in `m'`; no agent of `m'` removed —
+    directly, by `remove_all_agents` or by a callback —; none of `m'`'s own sets reordered in place; no shuffle or `shuffle_do`
+    of a set that carries `m'`'s generator).  Everything else is allowed, in any number and order: churn in the other
+    models, new models, program-made sets, in-place reorderings, every kind of activation with callbacks that remove,
+    create, edit sets or raise.  Then the registry of `m'` — members, order, by-type sets, id counter, generator — is
+    exactly what it was, and `m'` has the same agents. -/
+theorem C02_other_models_untouched_all_histories (ops0 ops : List Op) (m' : Nat)
+    (hm : m' < (run World.empty ops0).regs.length)
+    (hav : ∀ pre op post, ops = pre ++ op :: post →
+      Op.avoids (run World.empty ops0) m' (run (run World.empty ops0) pre) op) :
+    (run (run World.empty ops0) ops).regs[m']? = (run World.empty ops0).regs[m']? ∧
+    ∀ b, modelOfI (run (run World.empty ops0) ops).info b = some m' ↔ modelOfI (run World.empty ops0).info b = some m' := by
+  have hw0 := winv_run_perm (winv_empty List.Perm) ops0
+  generalize run World.empty ops0 = w0 at hw0 hm hav
+  have key : ∀ (ops pre : List Op) (w : World), w = run w0 pre → WInv List.Perm w → Quiet w0 m' w →
+      (∀ p op post, ops = p ++ op :: post → Op.avoids w0 m' (run w0 (pre ++ p)) op) → Quiet w0 m' (run w ops) := by
+    intro ops
+    induction ops with
+    | nil => intro pre w _ _ hq _; exact hq
+    | cons op ops ih =>
+      intro pre w hwe hwi hq hall
+      have hlen : m' < w.regs.length := by
+        have := hq.regs
+        cases h1 : w.regs[m']? with
+        | none => rw [h1, List.getElem?_eq_getElem hm] at this; simp at this
+        | some r => exact (List.getElem?_eq_some_iff.mp h1).1
+      have ha : Op.avoids w0 m' w op := by
+        have := hall [] op ops rfl
+        rw [List.append_nil, ← hwe] at this
+        exact this
+      have hstep := quiet_step hwi hlen hq op ha
+      have := ih (pre ++ [op]) (step w op) (by rw [hwe]; simp [run, List.foldl_append]) (winv_step_perm hwi op) hstep
+        (fun p o post hp => by
+          have := hall (op :: p) o post (by rw [hp]; rfl)
+          simpa [List.append_assoc] using this)
+      exact this
+  have hq := key ops [] w0 rfl hw0 (Quiet.refl w0 m') (fun p op post hp => by simpa using hav p op post hp)
+  exact ⟨hq.regs, fun b => by rw [hq.agents b]; simp [agentOf]⟩
+
+/-- non-vacuity: two models; while model 0 is left alone, model 1 sees churn, `remove_all_agents`, an in-place shuffle and an
+    activation whose callbacks remove and create agents of model 1 and raise -/
+example : (run (run World.empty [.newModel ⟨[1, 2]⟩, .newModel ⟨[3, 4, 5]⟩, .create 0 0 false [], .create 1 0 true [], .create 1 1 false []])
+    [.create 1 0 false [], .shuffle (.all 1),
+     .doSetX (fun a => if a = 1 then [.rm 2, .create 1 0 1 false] else []) (fun a => a == 3) 7 (.all 1),
+     .removeAll 1, .newModel ⟨[]⟩]).regs[0]? =
+    (run World.empty [.newModel ⟨[1, 2]⟩, .newModel ⟨[3, 4, 5]⟩, .create 0 0 false [], .create 1 0 true [], .create 1 1 false []]).regs[0]? := by
+  decide
+
+/-- **`register_agent` / `deregister_agent` called directly.**  At every reachable state: registering an agent that is
+    registered (what `Agent.__init__` already did) changes nothing at all — no duplicate in any of the three structures, no
+    change of order —; `deregister_agent` of an agent that is not registered raises `KeyError` (and nothing was changed
+    before the raise), and of a registered agent it is exactly `Agent.remove()`, so every theorem about removal applies. -/
+theorem C02_direct_register_and_deregister (ops : List Op) (a : Aid) :
+    let w := run World.empty ops
+    (registered w a = true → registerAgain w a = w ∧ deregisterDirect w a = some (removeAgent w a)) ∧
+    (registered w a = false → deregisterDirect w a = none) := by
+  have h := winv_run_perm (winv_empty List.Perm) ops
+  generalize run World.empty ops = w at h
+  refine ⟨fun hr => ⟨registerAgain_noop OrdRel.ofPerm h a hr, ?_⟩, fun hr => ?_⟩
+  · obtain ⟨i, r, hi, hrr, ha⟩ := registered_iff.mp hr
+    simp [deregisterDirect, hi, hrr, ha]
+  · cases hi : w.info[a]? with
+    | none => simp [deregisterDirect, hi]
+    | some i =>
+      cases hrr : w.regs[i.model]? with
+      | none => simp [deregisterDirect, hi, hrr]
+      | some r =>
+        have : a ∉ r.hard := by
+          intro ha
+          have : registered w a = true := registered_iff.mpr ⟨i, r, hi, hrr, ha⟩
+          rw [hr] at this; simp at this
+        simp [deregisterDirect, hi, hrr, this]
+
+/-- non-vacuity: agent 1 is registered (registering it again is a no-op), agent 0 was removed but is held -/
+example : registered (run World.empty [.newModel ⟨[]⟩, .create 0 0 true [], .create 0 1 false [], .remove 0]) 1 = true ∧
+    registered (run World.empty [.newModel ⟨[]⟩, .create 0 0 true [], .create 0 1 false [], .remove 0]) 0 = false ∧
+    (registerAgain (run World.empty [.newModel ⟨[]⟩, .create 0 0 true [], .create 0 1 false [], .remove 0]) 0).regs.map (·.hard)
+      = [[1, 0]] := by decide
 
 /-- **`create_agents` creates exactly n agents and splits only the sequences of length n.**  At any state, for
     every class, every n and every list of arguments (positional and keyword alike): exactly n agents are
